@@ -108,35 +108,39 @@ def toomOdd (a0 b : List Nat) (n : Nat) (R : List Nat) : List Nat :=
   let e := mulmid_basecase ((a0.drop 1).drop (n - 1)) (n - 1) (b.take (n - 1))   -- :230
   onRange rp (n - 1) 3 (fun l => (add_n l e).1)                       -- :231
 
-/-- mpn_toom42_mulmid (rp, ap, bp, n, scratch): a = the 2n-1 limbs from ap on (may be longer), b = exactly n limbs.
+/-- The even core of mpn_toom42_mulmid, toom42_mulmid.c:66-205, m = n / 2 ≥ 2: `a` = ap after `ap += n & 1` (4m-1 limbs used),
+    `b` = {bp, ≥ 2m} (the low 2m limbs are used), `recf x y` = the middle product MP({x, 2m-1}, {y, m}) the C takes at this size
+    (mpn_mulmid_basecase below MULMID_TOOM42_THRESHOLD, else mpn_toom42_mulmid).  Returns R = {rp, 2m+2}. -/
+def toomEven (recf : List Nat → List Nat → List Nat) (a b : List Nat) (m : Nat) : List Nat :=
+  let blo := b.take m; let bhi := (b.drop m).take m             -- bp, bp + m
+  -- :103-106 transposed interpolation
+  let r0 := add_err1_n (win a 0 (m - 1)) (win a m (m - 1)) (bhi.take (m - 1)) 0
+  let r1 := err2_n false (win a (m - 1) m) (win a (2 * m - 1) m) bhi blo r0.2.2
+  let r3 := add_err1_n (win a (2 * m - 1) m) (win a (3 * m - 1) m) blo r1.2.2.2
+  let s := r0.1 ++ r1.1 ++ r3.1
+  let e0 := r0.2.1; let e1 := r1.2.1; let e2 := r1.2.2.1; let e3 := r3.2.1
+  -- :108-119
+  let neg := decide (cmp bhi blo < 0)
+  let r4 := if neg then err2_n true blo bhi (win a (m - 1) m) (win a (2 * m - 1) m) 0
+            else err2_n true bhi blo (win a (m - 1) m) (win a (2 * m - 1) m) 0
+  let d := r4.1; let e4 := r4.2.1; let e5 := r4.2.2.1
+  -- :134-153 recursive middle products
+  let p2 := recf (s.drop m) blo                                 -- C + D
+  let t0 := lget p2 0; let t1 := lget p2 1
+  let p1 := recf (a.drop m) d                                   -- B - C (or C - B)
+  let p0 := recf s bhi                                          -- A + B
+  let R := p0 ++ p2.drop 2                                      -- p0 overwrites p2[0], p2[1]
+  toomFix m neg R p1 t0 t1 e0 e1 e2 e3 e4 e5
+
+/-- mpn_toom42_mulmid (rp, ap, bp, n, scratch): a0 = the 2n-1 limbs from ap on (may be longer), b = exactly n limbs.
     `fuel` bounds the recursion (n/2 < n; n is enough); `[]` = outside the C's domain (ASSERT (n >= 4)) or out of fuel. -/
 def toom42 (T : Nat) : Nat → List Nat → List Nat → Nat → List Nat
   | 0, _, _, _ => []
   | fuel + 1, a0, b, n =>
     if n < 4 then [] else                                       -- :62 ASSERT (n >= 4)
-    let a := a0.drop (n % 2)                                    -- :66 ap += n & 1
-    let m := n / 2                                              -- :67
-    let blo := b.take m; let bhi := (b.drop m).take m           -- bp, bp + m
-    -- :103-106 transposed interpolation
-    let r0 := add_err1_n (win a 0 (m - 1)) (win a m (m - 1)) (bhi.take (m - 1)) 0
-    let r1 := err2_n false (win a (m - 1) m) (win a (2 * m - 1) m) bhi blo r0.2.2
-    let r3 := add_err1_n (win a (2 * m - 1) m) (win a (3 * m - 1) m) blo r1.2.2.2
-    let s := r0.1 ++ r1.1 ++ r3.1
-    let e0 := r0.2.1; let e1 := r1.2.1; let e2 := r1.2.2.1; let e3 := r3.2.1
-    -- :108-119
-    let neg := decide (cmp bhi blo < 0)
-    let r4 := if neg then err2_n true blo bhi (win a (m - 1) m) (win a (2 * m - 1) m) 0
-              else err2_n true bhi blo (win a (m - 1) m) (win a (2 * m - 1) m) 0
-    let d := r4.1; let e4 := r4.2.1; let e5 := r4.2.2.1
-    -- :134-153 recursive middle products
-    let rec3 : List Nat → List Nat → List Nat := fun x y =>
-      if m < T then mulmid_basecase x (2 * m - 1) y else toom42 T fuel x y m
-    let p2 := rec3 (s.drop m) blo                               -- C + D
-    let t0 := lget p2 0; let t1 := lget p2 1
-    let p1 := rec3 (a.drop m) d                                 -- B - C (or C - B)
-    let p0 := rec3 s bhi                                        -- A + B
-    let R := p0 ++ p2.drop 2                                    -- p0 overwrites p2[0], p2[1]
-    let R := toomFix m neg R p1 t0 t1 e0 e1 e2 e3 e4 e5
+    -- :66-67 ap += n & 1; m = n / 2;  :134 if (m < MULMID_TOOM42_THRESHOLD) basecase else toom42 itself
+    let R := toomEven (fun x y => if n / 2 < T then mulmid_basecase x (2 * (n / 2) - 1) y else toom42 T fuel x y (n / 2))
+               (a0.drop (n % 2)) b (n / 2)
     if n % 2 = 1 then toomOdd a0 b n R else R                   -- :208 if (n & 1)
 
 end Mpir.MulMid
